@@ -1919,8 +1919,10 @@ func (query *Query) execAndPostProcess() (result any, err error) {
 		return nil, err
 	}
 	query.wg.Wait()
-	for _, postProcessor := range query.postProcessors {
-		err := postProcessor()
+	// by index: a post-processor may register further ones (AWAIT over a nested
+	// select adopts what that select deferred), they have to run as well
+	for i := 0; i < len(query.postProcessors); i++ {
+		err := query.postProcessors[i]()
 		if err != nil {
 			return nil, err
 		}
